@@ -15,16 +15,24 @@ def statics : Shape → List Int
   | _ :: t => statics t
 
 theorem materialize_eq (o : Shape) (tgt : List Int) (h : materialize (some o) false = some tgt) :
-    nonInts o ≤ 1 ∧ tgt = o.map matF := by
+    nonInts o ≤ 1 ∧ tgt = o.map matF ∧ (nonInts o = 1 → Dim.known 0 ∉ o) := by
   simp only [materialize, Bool.false_eq_true, if_false] at h
-  by_cases hc : (o.filter (fun d => !d.isInt)).length ≤ 1
-  · simp only [hc, if_true, Option.some.injEq] at h
-    refine ⟨hc, ?_⟩
-    rw [← h]
-    apply List.map_congr_left
-    intro d _
-    cases d <;> rfl
-  · simp only [hc, if_false] at h; cases h
+  by_cases hg : ((o.filter (fun d => !d.isInt)).length = 1 && o.any (fun d => decide (d = .known 0))) = true
+  · rw [if_pos hg] at h; cases h
+  · rw [if_neg hg] at h
+    by_cases hc : (o.filter (fun d => !d.isInt)).length ≤ 1
+    · rw [if_pos hc] at h
+      simp only [Option.some.injEq] at h
+      refine ⟨hc, ?_, ?_⟩
+      · rw [← h]
+        apply List.map_congr_left
+        intro d _
+        cases d <;> rfl
+      · intro h1 hm
+        apply hg
+        simp only [Bool.and_eq_true, decide_eq_true_eq, List.any_eq_true]
+        exact ⟨h1, ⟨_, hm, rfl⟩⟩
+    · rw [if_neg hc] at h; cases h
 
 theorem nonInts_cons_known (n : Int) (o : Shape) : nonInts (.known n :: o) = nonInts o := by
   simp only [nonInts, List.filter_cons, Dim.isInt, Bool.not_true, Bool.false_eq_true, if_false]
